@@ -106,8 +106,11 @@ def judge(case):
     counters = {}
     x = c
     done = ""
+    # the caller's own dictionary object, kept and re-used from program to program (what it holds is `ov`, unless a pass
+    # wrote into it)
+    ov_pass = case.get("_dict") if case.get("_dict") is not None else ov
     for p in seq:
-        o = lib.outcome(apply_pass, p, x, ov)
+        o = lib.outcome(apply_pass, p, x, ov_pass)
         if o[0] == "jaqal":
             return "not-applicable:%s" % p, fails, counters
         if o[0] == "exc":
@@ -127,7 +130,7 @@ def judge(case):
             fails.append(("malformed-result:%s" % p, {"after": done, "error": str(ex)[:200]}))
             return "ok", fails, counters
         # idempotence of this pass on its own output
-        o2 = lib.outcome(apply_pass, p, y, ov)
+        o2 = lib.outcome(apply_pass, p, y, ov_pass)
         counters["idem"] = counters.get("idem", 0) + 1
         if o2[0] != "ok":
             fails.append(("second-application-fails:%s:%s" % (p, o2[1]), {"after": done, "error": o2[2]}))
@@ -281,11 +284,14 @@ def process(ctx, case, seen):
         if seen[key] > 2:
             rec.count("unminimised-repeat:" + clause)
             continue
-        base = {k: v for k, v in case.items() if k != "prog"}
+        base = {k: v for k, v in case.items() if k not in ("prog", "_dict")}
         small = minimise.minimise(prog, lambda p: clause in _clauses(dict(base, prog=p)), budget=200)
         small_case = dict(base, prog=small)
         d2 = [x for x in (judge_flags if flags_case else judge)(small_case)[1] if x[0] == clause]
         rec.violation(sig("C10", clause, prog_features(small)), d2[0][1] if d2 else detail, small_case)
+
+
+KEPT, KEPT_CONTENT = {}, {}
 
 
 def shard(ctx):
@@ -339,9 +345,22 @@ def shard(ctx):
         ov = make_override(rng, prog) if rng.random() < 0.6 else {}
         if chain_ov is not None:
             ov = chain_ov
+        keep = None
+        if chain_ov is None and KEPT and rng.random() < 0.5 and all(isinstance(s_, tuple) for s_ in prog[1:]):
+            # the override dictionary of the previous program, the very object, used again for this one
+            lets_here = {s_[1]: s_[2] for s_ in prog[1:] if s_[0] == "let"}
+            if all(k_ in lets_here and type(lets_here[k_]) is type(v_) for k_, v_ in KEPT_CONTENT.items()) and KEPT_CONTENT:
+                ov, keep = dict(KEPT_CONTENT), KEPT
+                rec.count("override-dictionary-object-kept-from-the-previous-program")
+        if keep is None and ov:
+            KEPT.clear()
+            KEPT.update(ov)
+            KEPT_CONTENT.clear()
+            KEPT_CONTENT.update(ov)
+            keep = KEPT
         seqs = rng.sample(SEQS, 12 if ctx.quick else 24) if (ctx.quick or i % 10) else SEQS
         for seq in seqs:
-            process(ctx, dict({"prog": prog, "ov": ov, "seq": seq}, **({"native": nat} if use_native else {})), seen)
+            process(ctx, dict({"prog": prog, "ov": ov, "seq": seq, "_dict": keep if ov else None}, **({"native": nat} if use_native else {})), seen)
         for fl in ({"expand_macro": True}, {"expand_let": True}, {"expand_let_map": True},
                    {"expand_macro": True, "expand_let": True}, {"expand_macro": True, "expand_let_map": True},
                    {"expand_let": True, "expand_let_map": True}):
